@@ -6635,6 +6635,77 @@ impl<Front: SocketHandler> ConnectionH2<Front> {
     }
 }
 
+/// verification hook (`--cfg sozu_verif`): thin public wrappers / state constructors for
+/// the private H2 kernels so out-of-tree solver harnesses can reach them. No logic here.
+#[cfg(sozu_verif)]
+pub mod verif {
+    use std::time::Instant;
+
+    use super::{H2Error, H2FloodConfig, H2FloodDetector, StreamId, parser};
+
+    pub fn next_stream_id(last_stream_id: StreamId, is_client: bool) -> Option<(StreamId, StreamId)> {
+        super::next_stream_id(last_stream_id, is_client)
+    }
+    pub fn error_nom_to_h2(error: nom::Err<parser::ParserError>) -> H2Error {
+        super::error_nom_to_h2(error)
+    }
+    /// the window counters, in declaration order
+    #[derive(Clone, Copy, Debug, PartialEq, Eq)]
+    pub struct FloodCounters {
+        pub rst_stream_count: u32,
+        pub total_rst_received_lifetime: u64,
+        pub total_abusive_rst_received_lifetime: u64,
+        pub total_rst_streams_emitted_lifetime: u64,
+        pub ping_count: u32,
+        pub total_ping_received_lifetime: u32,
+        pub settings_count: u32,
+        pub total_settings_received_lifetime: u32,
+        pub empty_data_count: u32,
+        pub window_update_stream0_count: u32,
+        pub continuation_count: u32,
+        pub accumulated_header_size: u32,
+        pub glitch_count: u32,
+    }
+    pub fn flood_detector(c: FloodCounters, window_start: Instant, config: H2FloodConfig) -> H2FloodDetector {
+        H2FloodDetector {
+            rst_stream_count: c.rst_stream_count,
+            total_rst_received_lifetime: c.total_rst_received_lifetime,
+            total_abusive_rst_received_lifetime: c.total_abusive_rst_received_lifetime,
+            total_rst_streams_emitted_lifetime: c.total_rst_streams_emitted_lifetime,
+            ping_count: c.ping_count,
+            total_ping_received_lifetime: c.total_ping_received_lifetime,
+            settings_count: c.settings_count,
+            total_settings_received_lifetime: c.total_settings_received_lifetime,
+            empty_data_count: c.empty_data_count,
+            window_update_stream0_count: c.window_update_stream0_count,
+            continuation_count: c.continuation_count,
+            accumulated_header_size: c.accumulated_header_size,
+            glitch_count: c.glitch_count,
+            window_start,
+            config,
+        }
+    }
+    pub fn flood_counters(d: &H2FloodDetector) -> FloodCounters {
+        FloodCounters {
+            rst_stream_count: d.rst_stream_count,
+            total_rst_received_lifetime: d.total_rst_received_lifetime,
+            total_abusive_rst_received_lifetime: d.total_abusive_rst_received_lifetime,
+            total_rst_streams_emitted_lifetime: d.total_rst_streams_emitted_lifetime,
+            ping_count: d.ping_count,
+            total_ping_received_lifetime: d.total_ping_received_lifetime,
+            settings_count: d.settings_count,
+            total_settings_received_lifetime: d.total_settings_received_lifetime,
+            empty_data_count: d.empty_data_count,
+            window_update_stream0_count: d.window_update_stream0_count,
+            continuation_count: d.continuation_count,
+            accumulated_header_size: d.accumulated_header_size,
+            glitch_count: d.glitch_count,
+        }
+    }
+    pub const DEFAULT_MAX_PING_LIFETIME: u32 = super::DEFAULT_MAX_PING_LIFETIME;
+    pub const DEFAULT_MAX_SETTINGS_LIFETIME: u32 = super::DEFAULT_MAX_SETTINGS_LIFETIME;
+}
+
 #[cfg(test)]
 mod tests {
     use std::{cell::RefCell, rc::Rc};
